@@ -634,7 +634,7 @@ func (g *G) DefPure() Def {
 	s := g.newScope(ps, false)
 	var src string
 	var feats []string
-	switch t := g.T.Draw(8); {
+	switch t := g.T.Draw(9); {
 	case t == 1 && ar >= 1: // bounded recursion
 		feats = append(feats, "def.recursive")
 		src = fmt.Sprintf("%s = (%s) -> if %s <= 0 {\n%s\n} else {\n%s + %s(%s - 1%s)\n}", name, strings.Join(ps, ", "), ps[0], g.lit(), g.atom(s), name, ps[0], restArgs(ps))
@@ -674,6 +674,18 @@ func (g *G) DefPure() Def {
 			body = "s = s * 10 + h(e)"
 		}
 		lines = append(lines, "for e <- t() {\n"+body+"\n}", "s")
+		src = name + " = (" + strings.Join(ps, ", ") + ") -> " + block(lines)
+	case t == 8 && ar >= 1: // a burst of operand pushes inside the frame, then assignments, a call and a forked loop that read them
+		feats = append(feats, "def.push_burst")
+		nb := []int{6, 12, 24, 40}[g.T.Draw(4)]
+		el := make([]string, nb)
+		for i := range el {
+			el[i] = fmt.Sprintf("%s + %d", ps[0], i)
+		}
+		s.used["a"], s.used["k"], s.used["z"], s.used["s"], s.used["i"] = true, true, true, true, true
+		lines := []string{"a = [" + strings.Join(el, ", ") + "]", "k = #a + " + ps[0], "z = deep(2)", "s = 0",
+			"for i <- fromto(0, 3) {\ns = s + k\n}", "k * 100 + s + z"}
+		g.NeedDeep = true
 		src = name + " = (" + strings.Join(ps, ", ") + ") -> " + block(lines)
 	case t == 5: // wide frame whose loop iterator reads its last local
 		feats = append(feats, "def.wide")
